@@ -272,7 +272,7 @@ func ascendingNames(n int, lenLo, lenHi int) []string {
 }
 
 // Harness_C01_table_refs: box A, refs: every kind, symbolic names/values/indices/limits.
-// bounds: 1..2 refs (thorough 1..3), names 1..2 bytes all values, 4 value kinds, hash bytes: first 2 free + fixed tail, update index min..min+127 with min<2^32 symbolic; Config: BlockSize in {64,96,4096(default)} x Unaligned x SkipIndexObjects x RestartInterval in {0(=16),1} x HashID in {sha1,sha256}
+// bounds: 1..2 refs with names of 1..2 bytes (thorough: also 3 refs with 1-byte names), all byte values, 4 value kinds, hash bytes: first 2 free + fixed tail, update index min..min+127 with min<2^32 symbolic; Config: BlockSize in {64,96,4096(default)} x Unaligned x SkipIndexObjects x RestartInterval in {0(=16),1} x HashID in {sha1,sha256}
 // assumes: update index offset < 128 (varint width decided at codec level)
 // covers: done, rejected
 func Harness_C01_table_refs() {
@@ -289,7 +289,11 @@ func Harness_C01_table_refs() {
 	}
 	min := uint64(VerifU32())
 	n := VerifIntRange(1, 2+VerifTier())
-	names := ascendingNames(n, 1, 2)
+	maxName := 2
+	if n == 3 {
+		maxName = 1 // the third record multiplies the paths by ~30: one-byte names keep the thorough tier within minutes
+	}
+	names := ascendingNames(n, 1, maxName)
 	var refs []*RefRecord
 	for i := 0; i < n; i++ {
 		refs = append(refs, genRef(g, names[i], min, min+200))
